@@ -304,6 +304,9 @@ func (engine) Run(ci any) lib.Result {
 		if now.Sub(t0) > settleHard || out.class == "hang" {
 			break
 		}
+		if out.class != "ok" && now.Sub(t0) > 30*time.Millisecond {
+			break // no verdict is given on a run that did not complete
+		}
 		time.Sleep(2 * time.Millisecond)
 	}
 	_ = settled
@@ -342,7 +345,17 @@ func (engine) Run(ci any) lib.Result {
 		return res
 	}
 	if out.class != "ok" {
-		// the run did not complete: outside the property (only completed runs are constrained)
+		// the run did not complete: outside the property (only completed runs are constrained).
+		// What an aborted run leaves behind is recorded in the distribution (abort:clean / abort:leak).
+		if out.class == "run_err" || out.class == "stream_err" {
+			if len(blocked) == 0 && len(leaked) == 0 && len(sum.Undrained) == 0 {
+				res.Tags = append(res.Tags, "abort:clean")
+			} else {
+				res.Tags = append(res.Tags, "abort:leak")
+			}
+			res.Tags = append(res.Tags, "abort-kind:"+abortKind(out.msg))
+		}
+		e.releaseAll()
 		return res
 	}
 	if why := unfinished(c, e); why != "" {
@@ -352,6 +365,7 @@ func (engine) Run(ci any) lib.Result {
 		obs.Class = "early_end"
 		obs.Msg = why
 		res.Tags = tagsOf(c, e, &obs)
+		e.releaseAll()
 		return res
 	}
 	// ---- direct oracle
@@ -375,12 +389,27 @@ func (engine) Run(ci any) lib.Result {
 	res.Oracle = strings.Join(fails, "; ")
 
 	// ---- model case
-	term, ok := coqCase(c, e, &sum)
-	if ok {
-		res.CoqTerm = term
+	if e.resumes == 0 { // the run model does not cover interrupt + resume: oracle only
+		if term, ok := coqCase(c, e, &sum); ok {
+			res.CoqTerm = term
+		}
 	}
 	res.Nontrivial = len(e.producers) > 0 && (len(sum.Copies) > 0 || len(sum.CallbackCopies) > 0 || sum.Streams > len(e.producers))
 	return res
+}
+
+func abortKind(msg string) string {
+	switch {
+	case strings.Contains(msg, "node failed on purpose"):
+		return "node-error"
+	case strings.Contains(msg, "exceeds max steps"):
+		return "step-limit"
+	case strings.Contains(msg, "unknown node: end"):
+		return "end-skipped"
+	case strings.Contains(msg, "no tasks to execute"):
+		return "no-tasks"
+	}
+	return "other"
 }
 
 // unfinished tells whether the run returned while part of the graph was still to run. In
@@ -395,11 +424,9 @@ func unfinished(c *Case, e *env) string {
 		started[x]++
 	}
 	collected := map[int]int{}
-	for _, b := range e.sched {
-		for _, key := range b {
-			if i, ok := nodeIndex(key); ok {
-				collected[i]++
-			}
+	for key, n := range e.collected {
+		if i, ok := nodeIndex(key); ok {
+			collected[i] += n
 		}
 	}
 	for x, n := range started {
@@ -407,10 +434,54 @@ func unfinished(c *Case, e *env) string {
 			return fmt.Sprintf("%s started %d time(s), collected %d time(s)", nodeName(x), n, collected[x])
 		}
 	}
+	_, controls := c.callsOf()
 	if c.Mode == "pregel" {
+		// END must be reached with no other node scheduled: the tasks of the last pass may only have
+		// generated END (a generated node would have been scheduled together with END and dropped)
+		if e.resumes > 0 {
+			return "" // resumed runs: the generator's layered shape guarantees it
+		}
+		if len(e.sched) == 0 { // END generated by START itself
+			gen := append([]int(nil), controls[START]...)
+			for bi := range c.StartBranches {
+				if log := e.brLog[[2]int{START, bi}]; len(log) > 0 {
+					gen = append(gen, log[0]...)
+				}
+			}
+			for _, y := range gen {
+				if y != END {
+					return fmt.Sprintf("%s was scheduled together with END (generated by start)", nodeName(y))
+				}
+			}
+			return ""
+		}
+		occ := map[int]int{}
+		for _, b := range e.sched[:len(e.sched)-1] {
+			for _, key := range b {
+				if i, ok := nodeIndex(key); ok {
+					occ[i]++
+				}
+			}
+		}
+		for _, key := range e.sched[len(e.sched)-1] {
+			x, ok := nodeIndex(key)
+			if !ok || x >= subBase {
+				continue
+			}
+			gen := append([]int(nil), controls[x]...)
+			for bi := range c.Nodes[x].Branches {
+				if log := e.brLog[[2]int{x, bi}]; occ[x] < len(log) {
+					gen = append(gen, log[occ[x]]...)
+				}
+			}
+			for _, y := range gen {
+				if y != END {
+					return fmt.Sprintf("%s was scheduled together with END (generated by %s)", nodeName(y), nodeName(x))
+				}
+			}
+		}
 		return ""
 	}
-	_, controls := c.callsOf()
 	check := func(from int, brs []BranchSpec, k int) string {
 		// a control edge to a node that is also an end node of a branch of the same node does not
 		// count: if no branch selects it the skip report comes first and may skip the node for good
@@ -432,7 +503,7 @@ func unfinished(c *Case, e *env) string {
 			}
 		}
 		for _, y := range trig {
-			if y != END && started[y] == 0 {
+			if y != END && started[y] == 0 && collected[y] == 0 {
 				return fmt.Sprintf("%s was triggered by %s and did not run", nodeName(y), nodeName(from))
 			}
 		}
@@ -441,21 +512,18 @@ func unfinished(c *Case, e *env) string {
 	if w := check(START, c.StartBranches, 0); w != "" {
 		return w
 	}
-	for x := range started {
-		if w := check(x, c.Nodes[x].Branches, 0); w != "" {
-			return w
+	for x := range c.Nodes {
+		if started[x] > 0 || collected[x] > 0 {
+			if w := check(x, c.Nodes[x].Branches, 0); w != "" {
+				return w
+			}
 		}
 	}
 	return ""
 }
 
-// coqCase renders the compiled graph (chanCall of START and of every node), the schedule (the
-// batches of completed tasks with the outcome of their branch conditions) and the hook observables.
-func coqCase(c *Case, e *env, sum *hookSummary) (string, bool) {
-	e.mu.Lock()
-	defer e.mu.Unlock()
-	writeTo, controls := c.callsOf()
-	nodata := c.Mode == "workflow"
+// coqGraph renders the chanCalls of one graph (START first) for the model.
+func coqGraph(nodes []NodeSpec, startBranches []BranchSpec, writeTo, controls map[int][]int, nodata bool) string {
 	callOf := func(node int, brs []BranchSpec) string {
 		var bs []string
 		for _, b := range brs {
@@ -463,72 +531,182 @@ func coqCase(c *Case, e *env, sum *hookSummary) (string, bool) {
 		}
 		return lib.CoqPair(lib.CoqN(coqKey(node)), lib.CoqApp("mkc", coqKeys(writeTo[node]), coqKeys(controls[node]), lib.CoqList(bs)))
 	}
-	calls := []string{callOf(START, c.StartBranches)}
-	for i := range c.Nodes {
-		calls = append(calls, callOf(i, c.Nodes[i].Branches))
+	calls := []string{callOf(START, startBranches)}
+	for i := range nodes {
+		calls = append(calls, callOf(i, nodes[i].Branches))
 	}
-	seen := map[int]int{}
-	entry := func(node int, brs []BranchSpec) (string, bool) {
-		k := seen[node]
-		seen[node]++
+	return lib.CoqList(calls)
+}
+
+// coqSched renders one run's schedule: START's pseudo task, then the recorded batches, each task
+// with the outcome of its branch conditions (the k-th execution of a node uses the k-th logged
+// evaluation of each of its branches; seen counts the executions across runs).
+func coqSched(e *env, sched [][]string, nodes []NodeSpec, startBranches []BranchSpec, startID int, idOf func(int) int, seen map[int]int) (string, bool) {
+	entry := func(id, local int, brs []BranchSpec) (string, bool) {
+		k := seen[id]
+		seen[id]++
 		var outs []string
 		for bi := range brs {
-			log := e.brLog[[2]int{node, bi}]
+			log := e.brLog[[2]int{id, bi}]
 			if k >= len(log) {
 				return "", false
 			}
 			outs = append(outs, coqKeys(log[k]))
 		}
-		return lib.CoqPair(lib.CoqN(coqKey(node)), lib.CoqList(outs)), true
+		return lib.CoqPair(lib.CoqN(coqKey(local)), lib.CoqList(outs)), true
 	}
-	st, ok := entry(START, c.StartBranches)
+	st, ok := entry(startID, START, startBranches)
 	if !ok {
 		return "", false
 	}
-	sched := []string{lib.CoqList([]string{st})}
-	for _, b := range e.sched {
+	out := []string{lib.CoqList([]string{st})}
+	for _, b := range sched {
 		var items []string
 		for _, key := range b {
-			idx, ok := nodeIndex(key)
-			if !ok || idx < 0 || idx >= len(c.Nodes) {
+			id, ok := nodeIndex(key)
+			if !ok {
 				return "", false
 			}
-			it, ok := entry(idx, c.Nodes[idx].Branches)
+			local := -1
+			for j := range nodes {
+				if idOf(j) == id {
+					local = j
+				}
+			}
+			if local < 0 {
+				return "", false
+			}
+			it, ok := entry(id, local, nodes[local].Branches)
 			if !ok {
 				return "", false
 			}
 			items = append(items, it)
 		}
-		sched = append(sched, lib.CoqList(items))
+		out = append(out, lib.CoqList(items))
 	}
+	return lib.CoqList(out), true
+}
+
+// coqCase renders the compiled graph (chanCall of START and of every node), the schedule (the
+// batches of completed tasks with the outcome of their branch conditions), the runs of the nested
+// graphs (each with its own graph and schedule) and the hook observables (totals over all runs).
+func coqCase(c *Case, e *env, sum *hookSummary) (string, bool) {
+	e.mu.Lock()
+	defer e.mu.Unlock()
+	writeTo, controls := c.callsOf()
+	seen := map[int]int{}
+	top, ok := coqSched(e, e.sched, c.Nodes, c.StartBranches, START, func(i int) int { return i }, seen)
+	if !ok {
+		return "", false
+	}
+	// nested runs: task manager k >= 1 belongs to the outer node named in its first task
+	var subs []string
+	runsOf := map[int]int{}
+	for tm := 1; tm < len(e.scheds); tm++ {
+		sched := e.scheds[tm]
+		if len(sched) == 0 || len(sched[0]) == 0 {
+			return "", false // a nested run without a task cannot be attributed
+		}
+		id, ok := nodeIndex(sched[0][0])
+		if !ok || id < subBase {
+			return "", false
+		}
+		outer := id/subBase - 1
+		if outer >= len(c.Nodes) || c.Nodes[outer].Sub == nil {
+			return "", false
+		}
+		sub := c.Nodes[outer].Sub
+		runsOf[outer]++
+		sw, sc := map[int][]int{START: sub.StartSucc}, map[int][]int{START: sub.StartSucc}
+		for j, n := range sub.Nodes {
+			sw[j], sc[j] = n.Succ, n.Succ
+		}
+		idOf := func(j int) int { return subBase*(outer+1) + j }
+		ss, ok := coqSched(e, sched, sub.Nodes, sub.StartBranches, subBase*(outer+1)+subStart, idOf, seen)
+		if !ok {
+			return "", false
+		}
+		subs = append(subs, lib.CoqApp("mkSub", lib.CoqBool(sub.Mode != "pregel"), coqGraph(sub.Nodes, sub.StartBranches, sw, sc, false), ss))
+	}
+	// every execution of a nested graph node must have been attributed
+	fired := []uint64{}
+	for _, b := range e.sched {
+		for _, key := range b {
+			id, ok := nodeIndex(key)
+			if !ok || id >= subBase {
+				return "", false
+			}
+			fired = append(fired, coqKey(id))
+			if c.Nodes[id].Sub != nil {
+				runsOf[id]--
+			}
+		}
+	}
+	for _, n := range runsOf {
+		if n != 0 {
+			return "", false
+		}
+	}
+	sort.Slice(fired, func(i, j int) bool { return fired[i] < fired[j] })
 	cps := make([]string, len(sum.Copies))
 	for i, n := range sum.Copies {
 		cps[i] = lib.CoqZ(int64(n))
+	}
+	var sides []string
+	for _, x := range e.execs {
+		sides = append(sides, lib.CoqNat(streamSides(c.spec(x))))
+	}
+	cbc := make([]string, len(sum.CallbackCopies))
+	for i, n := range sum.CallbackCopies {
+		cbc[i] = lib.CoqZ(int64(n))
 	}
 	mgs := make([]string, len(sum.Merges))
 	for i, n := range sum.Merges {
 		mgs[i] = lib.CoqNat(n)
 	}
-	fired := make([]uint64, 0, len(e.execs))
-	for _, x := range e.execs {
-		fired = append(fired, coqKey(x))
-	}
-	sort.Slice(fired, func(i, j int) bool { return fired[i] < fired[j] })
-	return lib.CoqApp("mkR", lib.CoqBool(c.Mode != "pregel"), lib.CoqBool(c19Eager(c)), lib.CoqList(calls), lib.CoqList(sched),
+	return lib.CoqApp("mkR", lib.CoqBool(c.Mode != "pregel"), lib.CoqBool(c19Eager(c)),
+		coqGraph(c.Nodes, c.StartBranches, writeTo, controls, c.Mode == "workflow"), top, lib.CoqList(subs),
 		lib.CoqList(cps), lib.CoqNat(sum.ResolveCloses), lib.CoqNat(sum.UpdateCloses), lib.CoqNat(sum.ChanCloses), lib.CoqNat(sum.SkipCloses),
-		lib.CoqList(mgs), lib.CoqNList(fired)), true
+		lib.CoqList(mgs), lib.CoqNList(fired),
+		lib.CoqNat(c.Handlers), lib.CoqList(sides), lib.CoqList(cbc)), true
+}
+
+// streamSides: how many sides of a lambda's own paradigm are streams (its callbacks are
+// injected around the user function in that paradigm).
+func streamSides(n *NodeSpec) int {
+	if n.Fail {
+		return 1 // a failing node is a TransformableLambda that never reaches OnEnd
+	}
+	switch n.Kind {
+	case "prod", "coll":
+		return 1
+	case "tools": // the StreamableLambda and the streamed output of every tool call
+		return 1 + n.Tools
+	case "xform", "conv", "ident":
+		return 2
+	}
+	return 0
 }
 
 func nodeIndex(key string) (int, bool) {
 	if len(key) < 2 || key[0] != 'n' {
 		return 0, false
 	}
+	if k := strings.IndexByte(key, 's'); k > 0 { // inner node "n<i>s<j>"
+		i, err1 := strconv.Atoi(key[1:k])
+		j, err2 := strconv.Atoi(key[k+1:])
+		return subBase*(i+1) + j, err1 == nil && err2 == nil
+	}
 	i, err := strconv.Atoi(key[1:])
 	return i, err == nil
 }
 
 func tagsOf(c *Case, e *env, o *Obs) []string {
-	t := []string{"mode:" + c.Mode, fmt.Sprintf("nodes:%d", len(c.Nodes)), "class:" + o.Class, "input:" + c.Input,
+	mode := c.Mode
+	if c.Free {
+		mode = "pregel-free"
+	}
+	t := []string{"mode:" + mode, fmt.Sprintf("nodes:%d", len(c.Nodes)), "class:" + o.Class, "input:" + c.Input,
 		fmt.Sprintf("handlers:%d", c.Handlers)}
 	switch {
 	case c.Read < 0:
@@ -543,8 +721,8 @@ func tagsOf(c *Case, e *env, o *Obs) []string {
 	kinds := map[string]bool{}
 	keys := false
 	for _, x := range e.execs {
-		kinds[c.Nodes[x].Kind] = true
-		if c.Nodes[x].InKey != "" || c.Nodes[x].OutKey != "" {
+		kinds[c.spec(x).Kind] = true
+		if c.spec(x).InKey != "" || c.spec(x).OutKey != "" {
 			keys = true
 		}
 	}
@@ -564,10 +742,14 @@ func tagsOf(c *Case, e *env, o *Obs) []string {
 		}
 	}
 	specOf := func(node int) ([]int, []BranchSpec) {
-		if node == START {
+		switch {
+		case node == START:
 			return c.StartSucc, c.StartBranches
+		case node >= subBase && node%subBase == subStart:
+			sub := c.Nodes[node/subBase-1].Sub
+			return sub.StartSucc, sub.StartBranches
 		}
-		return c.Nodes[node].Succ, c.Nodes[node].Branches
+		return c.spec(node).Succ, c.spec(node).Branches
 	}
 	for k, log := range e.brLog {
 		succ, brs := specOf(k[0])
@@ -617,6 +799,18 @@ func tagsOf(c *Case, e *env, o *Obs) []string {
 	}
 	if o.Hook.Streams > len(e.producers) {
 		t = append(t, "has:merge-forwarder")
+	}
+	if e.resumes > 0 {
+		t = append(t, "has:interrupt-resume")
+	}
+	if len(e.scheds) > 1 && e.resumes == 0 {
+		t = append(t, "has:nested-run")
+	}
+	if len(c.IntBefore)+len(c.IntAfter) > 0 {
+		t = append(t, "opt:interrupt")
+	}
+	if c.State {
+		t = append(t, "opt:state-handlers")
 	}
 	sort.Strings(t)
 	return t
